@@ -9,6 +9,7 @@ from __future__ import annotations
 
 import ast
 
+from pv.q import text as qtext
 from pv.model import AnalysisError, walk_no_nested, params, UNKNOWN
 from pv.norm import Normalizer, Poly, single_defs
 
@@ -86,7 +87,7 @@ def rule_a(model, rep):
                 if isinstance(f, ast.Attribute) and f.attr in RANDOM_DRAW_METHODS:
                     recv = f.value
                     rd = model.dotted(unit, recv) if isinstance(recv, (ast.Name, ast.Attribute)) else None
-                    txt = ast.unparse(recv)
+                    txt = qtext(recv)
                     if rd in ("passlib.utils.rng",) or (isinstance(recv, ast.Name) and recv.id == "rng" and
                                                          (recv.id in pnames or _enclosing_has_param(unit, n, "rng"))):
                         rep.hold(R, site(un, q), f"{txt}.{f.attr}")
@@ -399,7 +400,7 @@ def rule_b_str(model, rep):
                   witness="generated string has the wrong length")
     # degenerate-alphabet guards
     guards = [n for n in ast.walk(fn) if isinstance(n, ast.If)]
-    has_neg = any("count < 0" in ast.unparse(g.test).replace(countp, "count") for g in guards)
+    has_neg = any("count < 0" in qtext(g.test).replace(countp, "count") for g in guards)
     rep.check(has_neg, R, s, "if count < 0: raise", "negative count refused")
 
 
@@ -493,11 +494,11 @@ def rule_d(model, rep):
     if len(ml) != 1:
         rep.undecided(R, s, "min_length assignment not found")
     else:
-        txt = ast.unparse(ml[0].value).replace("math.", "")
+        txt = qtext(ml[0].value).replace("math.", "")
         rep.check(txt in ("int(ceil(entropy / self.entropy_per_symbol))", "ceil(entropy / self.entropy_per_symbol)"),
                   R, s, ast.unparse(ml[0]), "min_length = ceil(entropy / entropy_per_symbol)", witness=wit)
         # raised when shorter
-        g = [n for n in ast.walk(fn) if isinstance(n, ast.If) and "length < min_length" in ast.unparse(n.test)]
+        g = [n for n in ast.walk(fn) if isinstance(n, ast.If) and "length < min_length" in qtext(n.test)]
         ok = bool(g) and any(isinstance(x, ast.Assign) and ast.unparse(x) == "length = min_length" for x in g[0].body)
         rep.check(ok, R, s, ast.unparse(g[0].test) if g else "<missing>",
                   "a requested length below the entropy minimum is raised to it", witness=wit)
@@ -517,7 +518,7 @@ def rule_d(model, rep):
     rep.check(rets == ["getrandstr(self.rng, self.chars, self.length)"], R, site("passlib.pwd", "WordGenerator.__next__"),
               "; ".join(rets), "word = getrandstr(self.rng, self.chars, self.length)", witness=wit)
     f4 = model.func("passlib.pwd", "PhraseGenerator.__next__")
-    txt = ast.unparse(f4)
+    txt = qtext(f4)
     ok = "self.rng.choice(self.words) for _ in range(self.length)" in txt
     rep.check(ok, R, site("passlib.pwd", "PhraseGenerator.__next__"), txt.split("\n", 1)[-1].strip()[:200],
               "phrase = `length` independent choices from self.words", witness=wit)
@@ -532,16 +533,16 @@ def rule_d(model, rep):
         node = a
         while node is not eu and node is not None:
             par = unit_pwd.parent(node)
-            if isinstance(par, ast.If) and node in par.body and "len(set(source)) == len(source)" in ast.unparse(par.test):
+            if isinstance(par, ast.If) and node in par.body and "len(set(source)) == len(source)" in qtext(par.test):
                 ok = True
             node = par
         rep.check(ok, R, site("passlib.pwd", "_ensure_unique"), ast.unparse(a), "a charset/wordset enters the 'already validated' cache only inside the branch where it was found duplicate-free",
                   witness="genword(chars='aaaaaaab', entropy=32): refused on the first call, accepted on the retry -- passwords with ~6 bits instead of 32")
-    rep.check(any(isinstance(n, ast.Raise) and "ValueError" in ast.unparse(n) for n in ast.walk(eu)), R, site("passlib.pwd", "_ensure_unique"), "raise ValueError",
+    rep.check(any(isinstance(n, ast.Raise) and qtext(n).loose("ValueError") for n in ast.walk(eu)), R, site("passlib.pwd", "_ensure_unique"), "raise ValueError",
               "duplicates are refused with ValueError")
     for cls_, attr in (("WordGenerator", "chars"), ("PhraseGenerator", "words")):
         init = model.func("passlib.pwd", cls_ + ".__init__")
-        rep.check(f"_ensure_unique({attr}, param='{attr}')" in ast.unparse(init), R, site("passlib.pwd", cls_ + ".__init__"), f"_ensure_unique({attr})",
+        rep.check(f"_ensure_unique({attr}, param='{attr}')" in qtext(init), R, site("passlib.pwd", cls_ + ".__init__"), f"_ensure_unique({attr})",
                   f"{cls_} validates its symbol set for duplicates (entropy per symbol assumes distinct symbols)", witness=wit)
     # totp.generate_secret: count = ceil(entropy * log(2, len(charset)))
     fn = model.func("passlib.totp", "generate_secret")
@@ -550,7 +551,7 @@ def rule_d(model, rep):
     if len(cnt) != 1:
         rep.undecided(R, s, "count assignment not found")
     else:
-        txt = ast.unparse(cnt[0].value).replace("math.", "")
+        txt = qtext(cnt[0].value).replace("math.", "")
         okset = {"int(ceil(entropy * log(2, len(charset))))", "ceil(entropy * log(2, len(charset)))",
                  "int(ceil(entropy / log2(len(charset))))", "ceil(entropy / log2(len(charset)))",
                  "int(ceil(entropy / log(len(charset), 2)))"}
@@ -564,7 +565,7 @@ def rule_d(model, rep):
     if len(ln) != 1:
         rep.undecided(R, s, "length assignment not found")
     else:
-        txt = ast.unparse(ln[0].value)
+        txt = qtext(ln[0].value)
         rep.check(txt in ("math.ceil(entropy_bits / math.log2(len(chars)))", "ceil(entropy_bits / log2(len(chars)))"),
                   R, s, ast.unparse(ln[0]), "length = ceil(entropy_bits / log2(len(chars)))", witness=wit)
     fn = model.func("libpass._salt", "generate_salt")
@@ -593,8 +594,8 @@ def rule_e(model, rep):
     for st in fn.body:
         if isinstance(st, ast.Expr) and isinstance(st.value, ast.Constant):
             continue
-        if isinstance(st, ast.If) and "in _forbidden_scheme_options" in ast.unparse(st.test) and \
-                any(isinstance(x, ast.Raise) for x in st.body) and "not in" not in ast.unparse(st.test):
+        if isinstance(st, ast.If) and "in _forbidden_scheme_options" in qtext(st.test) and \
+                any(isinstance(x, ast.Raise) for x in st.body) and "not in" not in qtext(st.test):
             ok = True
         break
     rep.check(ok, R, s, ast.unparse(fn.body[0] if not isinstance(fn.body[0], ast.Expr) else fn.body[1])[:160],
@@ -612,9 +613,9 @@ def rule_e(model, rep):
         if isinstance(n, ast.Assign) and isinstance(n.targets[0], ast.Subscript):
             stores.append(n)
     for st in stores:
-        txt = ast.unparse(st)
+        txt = qtext(st)
         # stores into scheme_options[...] maps must be preceded (same block or enclosing) by the norm call
-        if "scheme_options" in txt or "scheme_opts" in txt:
+        if txt.loose("scheme_options") or txt.loose("scheme_opts"):
             blk = u.parent(st)
             pre_ok = _preceded_by_call(u, init, st, ("norm_scheme_option", "self._norm_scheme_option"))
             rep.check(pre_ok, R, site(CTX, "_CryptConfig._init_options"), txt,
